@@ -207,8 +207,10 @@ def main():
     ev = {"property_id": prop, "tier": tier, "seed": seed, "level": info.get("level", "proof"), "coverage": cov,
           "assumptions": propinfo.ASSUMPTIONS + info.get("assumptions", []) + scan_assumptions(),
           "wall_s": round(wall, 2), "violations": len(violations)}
-    os.makedirs(os.path.join(VERIF, "evidence"), exist_ok=True)
-    json.dump(ev, open(os.path.join(VERIF, "evidence", prop + ".json"), "w"), indent=1)
+    # evidence describes /repo; a development run against another tree (VERIF_REPO, used for seeded changes) must not overwrite it
+    evdir = os.path.join(VERIF, "evidence") if os.path.realpath(driver.REPO) == "/repo" else os.environ.get("VERIF_EVIDENCE_DIR", "/tmp/vf_evidence_other_tree")
+    os.makedirs(evdir, exist_ok=True)
+    json.dump(ev, open(os.path.join(evdir, prop + ".json"), "w"), indent=1)
     print("%s %s: units=%d proof-obligations=%d/%d bounded-obligations=%d/%d known=%d violations=%d undecided=%d wall=%.1fs" % (
         prop, tier, len(sel), n_ok, n_ob, n_ok_b, n_ob_b, len(knowns), len(violations), len(undecided), wall))
     return rc
